@@ -5,19 +5,19 @@ export GOFLAGS=-mod=mod GOPROXY=off GOSUMDB=off GOTOOLCHAIN=local
 d=$1; k=$2
 wt=/tmp/mut/confirm
 if [ ! -d $wt ]; then git -C /repo worktree add -q --detach $wt HEAD || exit 2; fi
-cd $wt && git checkout -q --detach $(git -C /repo rev-parse HEAD) && git checkout -q -- . && git clean -fdq
+cd $wt && git reset -q --hard && git checkout -q --detach $(git -C /repo rev-parse HEAD) && git checkout -q -- . && git clean -fdq
 place=$(grep -m1 -o 'place in: *[a-z/]*' $d/${k}_demo_test.go | sed 's/place in: *//; s/\/$//')
 [ -z "$place" ] && place=compiler
 tname=$(grep -o 'func TestSeeded[A-Za-z0-9_]*' $d/${k}_demo_test.go | head -1 | sed 's/func //')
 cp $d/${k}_demo_test.go $wt/$place/xseeded_${k}_demo_test.go
 before=fail; go test -vet=off -count=1 -timeout 120s -run "^${tname}\$" ./$place >/tmp/mut/confirm.log 2>&1 && before=pass
-apply=ok; git apply $d/$k.diff 2>/dev/null || apply=fail
+apply=ok; git apply $d/$k.diff 2>/dev/null || { git apply -3 $d/$k.diff >/dev/null 2>&1 && git reset -q && apply=ok3; } || apply=fail
 suite=fail; demo=pass
-if [ $apply = ok ]; then
+if [ $apply != fail ]; then
   rm -f $wt/$place/xseeded_${k}_demo_test.go
   go test -vet=off -count=1 ./... >/tmp/mut/confirm2.log 2>&1 && suite=pass
   cp $d/${k}_demo_test.go $wt/$place/xseeded_${k}_demo_test.go
   go test -vet=off -count=1 -timeout 120s -run "^${tname}\$" ./$place >/tmp/mut/confirm3.log 2>&1 || demo=fail
 fi
 echo "$(basename $d)/$k place=$place test=$tname apply=$apply demo_before=$before suite_with=$suite demo_with=$demo"
-git checkout -q -- . ; git clean -fdq
+git reset -q --hard; git clean -fdq
